@@ -1,12 +1,18 @@
 // C11 impl driver for Dune::ArrayList<int,N> (public interface only).
 // ops: pb:v  er:k (begin()+k).eraseToHere()  pg purge  cl clear  set:i:v  hold:k (keep iterator begin()+k)
 // observation per step: size()[elements by const iteration]<*held or ->   (+ "!flag" if a cross-check fails)
+// With -DC11_DEEP -fno-access-control (OPTIONAL build: failure to compile only downgrades the evidence; g++'s flag is used instead of
+// `#define private public`, which SLList's forward-declared private struct Element does not survive) the private members are read instead and the
+// observation per step is  start_,size_,capacity_,<null pattern of chunks_>.
 #include <config.h>
-#include <dune/common/arraylist.hh>
 #include "c11_common.hh"
-#ifdef C11_DEEP
-#define C11_DEEP_ON 1
-#endif
+#include <array>
+#include <cassert>
+#include <memory>
+#include <iterator>
+#include <type_traits>
+#include <utility>
+#include <dune/common/arraylist.hh>
 
 template<int N>
 static void run(const std::vector<std::string>& ops)
@@ -30,6 +36,14 @@ static void run(const std::vector<std::string>& ops)
     else if (t[0] == "set") al[(std::size_t) c11::num(t[1])] = (int) c11::num(t[2]);
     else if (t[0] == "hold") { held = al.begin(); held += c11::num(t[1]); has = true; }
     else { c11::step_done("UNKNOWN-OP"); continue; }
+#ifdef C11_DEEP
+    {
+      std::string dp = std::to_string(al.start_) + "," + std::to_string(al.size_) + "," + std::to_string(al.capacity_) + ",";
+      for (const auto& c : al.chunks_) dp += c ? '0' : '1';
+      c11::step_done(dp);
+      continue;
+    }
+#endif
     const AL& cal = al;
     std::string obs = std::to_string(cal.size()) + "[";
     std::vector<int> viter;
